@@ -58,6 +58,119 @@ func namesIn(pk *packages.Package, env *localEnv, e ast.Expr, depth int, out map
 	})
 }
 
+// defDisagrees follows a local variable to its definitions: a definition whose right-hand side
+// reads a field (or getter) of some value must name the target field; definitions that read no
+// field (literals, make, nil) are neutral. It returns the offending definition.
+func defDisagrees(pk *packages.Package, env *localEnv, e ast.Expr, field string, aliases []string, depth int) (ast.Node, string) {
+	if depth > 3 || env == nil {
+		return nil, ""
+	}
+	info := pk.TypesInfo
+	id, ok := ast.Unparen(e).(*ast.Ident)
+	if !ok {
+		return nil, ""
+	}
+	v, ok := info.Uses[id].(*types.Var)
+	if !ok || v.IsField() {
+		return nil, ""
+	}
+	// a variable filled by a decoder (`json.Unmarshal(r.Mesg, &mesg)`): the decoded bytes are its source
+	var decoded []ast.Node
+	decodedSrc := map[ast.Node]ast.Expr{}
+	if env.fd != nil && env.fd.Body != nil {
+		ast.Inspect(env.fd.Body, func(n ast.Node) bool {
+			call, ok := n.(*ast.CallExpr)
+			if !ok || len(call.Args) != 2 || calleeName(info, call) != "json.Unmarshal" {
+				return true
+			}
+			if u, ok := ast.Unparen(call.Args[1]).(*ast.UnaryExpr); ok && u.Op == token.AND && isObj(info, u.X, v) {
+				decoded = append(decoded, call)
+				decodedSrc[call] = call.Args[0]
+			}
+			return true
+		})
+	}
+	for _, d := range append(append([]ast.Node(nil), env.defs[v]...), decoded...) {
+		var rhs ast.Expr
+		switch s := d.(type) {
+		case *ast.CallExpr:
+			rhs = decodedSrc[s]
+		case *ast.AssignStmt:
+			if len(s.Lhs) != len(s.Rhs) {
+				// a result of a call (`tags, err := decode(r.Tags)`): the variable's name is its
+				// designation unless the call's arguments read a field — then that field is
+				if call, isCall := ast.Unparen(s.Rhs[0]).(*ast.CallExpr); isCall && len(s.Rhs) == 1 && isObj(info, s.Lhs[0], v) && len(call.Args) == 1 {
+					rhs = call.Args[0]
+				} else {
+					continue
+				}
+			} else {
+				for i, l := range s.Lhs {
+					if isObj(info, l, v) {
+						rhs = s.Rhs[i]
+					}
+				}
+			}
+		case *ast.ValueSpec:
+			if len(s.Names) != len(s.Values) {
+				continue
+			}
+			for i, nm := range s.Names {
+				if info.Defs[nm] == v {
+					rhs = s.Values[i]
+				}
+			}
+		}
+		if rhs == nil {
+			continue
+		}
+		if at, src := defDisagrees(pk, env, rhs, field, aliases, depth+1); at != nil {
+			return at, src
+		}
+		readsField := false
+		core := ast.Unparen(rhs)
+		if u, ok := core.(*ast.UnaryExpr); ok && u.Op == token.AND {
+			core = ast.Unparen(u.X)
+		}
+		if _, isLit := core.(*ast.CompositeLit); isLit {
+			continue // a literal built here: its own fields are checked where they are written
+		}
+		ast.Inspect(rhs, func(n ast.Node) bool {
+			if se, ok := n.(*ast.SelectorExpr); ok {
+				if sel := info.Selections[se]; sel != nil && (sel.Kind() == types.FieldVal || strings.HasPrefix(se.Sel.Name, "Get")) {
+					readsField = true
+				}
+			}
+			return true
+		})
+		if !readsField {
+			continue
+		}
+		names := map[string]bool{}
+		namesIn(pk, nil, rhs, 0, names)
+		// through locals too, but not through the variable's own name
+		ast.Inspect(rhs, func(n ast.Node) bool {
+			if x, ok := n.(*ast.Ident); ok && info.Uses[x] != v {
+				namesIn(pk, env, x, 1, names)
+			}
+			return true
+		})
+		agree := names[strings.ToLower(field)]
+		for _, a := range aliases {
+			if names[a] {
+				agree = true
+			}
+			if x, y, isPair := strings.Cut(a, "&"); isPair && names[x] && names[y] {
+				agree = true
+			}
+		}
+		if !agree {
+			return d, exprString(rhs)
+		}
+	}
+	return nil, ""
+}
+
 // field aliases: a field that is legitimately fed from a differently named source
 var fieldAliases = map[string][]string{
 	"ClaimTaskRequest.ProcessId":      {"taskprocessid"},
@@ -150,6 +263,13 @@ func ruleNameAgreement(c *Ctx) {
 					if _, isLit := v.(*ast.CompositeLit); isLit {
 						continue // nested object: its own fields are checked
 					}
+					if hc, isCall := v.(*ast.CallExpr); isCall {
+						if hl := helperLiteral(pk, hc); hl != nil && types.Identical(derefType(info.Types[hl].Type), derefType(info.Types[kv.Value].Type)) {
+							if _, isObj := dataObjectType(info.Types[hl].Type); isObj {
+								continue // nested object built by a helper: its fields are checked in the helper
+							}
+						}
+					}
 					if tv, ok := info.Types[kv.Value]; ok && tv.Value != nil {
 						continue // constant
 					}
@@ -173,6 +293,21 @@ func ruleNameAgreement(c *Ctx) {
 					names := map[string]bool{}
 					namesIn(pk, env, kv.Value, 0, names)
 					ok2 := names[strings.ToLower(f)]
+					// a local that is assigned on several paths (a default, a fallback): every
+					// definition that reads a field of some message must read the identically named one
+					{
+						wantField, wantAliases := f, fieldAliases[tn+"."+f]
+						if parent != "" && tn == "Value" {
+							// the station of a nested Value member: <parent><member> (paramheaders, valuedata, promiseparamdata)
+							// (or the pair: `r.Param.Headers` names the parent and the member)
+							wantField, wantAliases = parent+strings.ToLower(f), []string{parent + "&" + strings.ToLower(f), strings.TrimPrefix(parent, "promise") + strings.ToLower(f)}
+						}
+						if at, src := defDisagrees(pk, env, v, wantField, wantAliases, 0); at != nil {
+							n++
+							key := fmt.Sprintf("names/%s.%s/%s.%s/def:%s", pk.Name, funcName(fd), tn, f, src)
+							c.check(false, key, at.Pos(), f+" ← "+src, fmt.Sprintf("%s.%s is fed from %s on some path (through %s): a client datum would be stored or returned under another field", tn, f, src, exprString(kv.Value)))
+						}
+					}
 					for _, a := range fieldAliases[tn+"."+f] {
 						if names[a] {
 							ok2 = true
@@ -217,18 +352,18 @@ var normaliserFuncs = map[string]bool{
 var allowedNormalisers = map[string]string{
 	// keyed by package, normaliser and the ORIGIN of its operands (origin.go): stable under renaming
 	// of locals and extraction of helpers; operands without a nameable origin carry the function
-	"api/strings.ToLower(param:api.API.SearchPromises#1)":                             "the search state WORD (pending/resolved/rejected), not an id",
-	"api/strings.ToLower(call:validator.FieldError.Field)":                            "the validator's field NAME in an error message",
-	"api/strings.ReplaceAll(call:validator.FieldError.Field)":                         "error message text",
-	"promise/State.UnmarshalJSON/strings.ToUpper(addr-taken|zero)":                    "the state WORD in a request body",
-	"http/strings.EqualFold(call:reflect.Value.String & call:strings.Split[])":        "the state WORD validator",
-	"sqlite/strings.ReplaceAll(field:t_aio.SearchPromisesCommand.Id)":                "search PATTERN: * → % (search patterns are exempt by the statement)",
-	"sqlite/strings.ReplaceAll(field:t_aio.SearchSchedulesCommand.Id)":               "search PATTERN: * → %",
-	"postgres/strings.ReplaceAll(field:t_aio.SearchPromisesCommand.Id)":              "search PATTERN: * → %",
-	"postgres/strings.ReplaceAll(field:t_aio.SearchSchedulesCommand.Id)":             "search PATTERN: * → %",
-	"sender/strings.TrimPrefix(field:url.URL.Path)":                                   "URL syntax: the path of poll://group/id without its leading slash is the listener id",
-	"util/RemoveWhitespace/strings.Map(expr & param:util.RemoveWhitespace#0)":         "helper definition (its call sites are judged)",
-	"config/strings.NewReplacer()":                                                    "configuration keys",
+	"api/strings.ToLower(param:api.API.SearchPromises#1)":                      "the search state WORD (pending/resolved/rejected), not an id",
+	"api/strings.ToLower(call:validator.FieldError.Field)":                     "the validator's field NAME in an error message",
+	"api/strings.ReplaceAll(call:validator.FieldError.Field)":                  "error message text",
+	"promise/State.UnmarshalJSON/strings.ToUpper(addr-taken|zero)":             "the state WORD in a request body",
+	"http/strings.EqualFold(call:reflect.Value.String & call:strings.Split[])": "the state WORD validator",
+	"sqlite/strings.ReplaceAll(field:t_aio.SearchPromisesCommand.Id)":          "search PATTERN: * → % (search patterns are exempt by the statement)",
+	"sqlite/strings.ReplaceAll(field:t_aio.SearchSchedulesCommand.Id)":         "search PATTERN: * → %",
+	"postgres/strings.ReplaceAll(field:t_aio.SearchPromisesCommand.Id)":        "search PATTERN: * → %",
+	"postgres/strings.ReplaceAll(field:t_aio.SearchSchedulesCommand.Id)":       "search PATTERN: * → %",
+	"sender/strings.TrimPrefix(field:url.URL.Path)":                            "URL syntax: the path of poll://group/id without its leading slash is the listener id",
+	"util/RemoveWhitespace/strings.Map(expr & param:util.RemoveWhitespace#0)":  "helper definition (its call sites are judged)",
+	"config/strings.NewReplacer()":                                             "configuration keys",
 }
 
 // ruleNoNormalisers (R15): no normalising / escaping function is applied in the packages that
@@ -433,4 +568,492 @@ func ruleSearchText(dialectOnly bool) ruleFn {
 		}
 		c.floor("search statements inspected", n, 4)
 	}
+}
+
+// ruleDefaultsOnlyForZero (R16): a client datum (a field of a request, command or decoded object, or
+// a parameter) is replaced by an empty map / slice only where it was found to be nil / empty — the
+// "normalise nil to empty" idiom. The same assignment outside such a test silently drops the
+// client's headers, data or tags.
+func ruleDefaultsOnlyForZero(c *Ctx) {
+	n := 0
+	for path, pk := range c.P.ByPath {
+		if !strings.HasPrefix(path, modPath+"/internal/app/") && !strings.HasPrefix(path, modPath+"/internal/kernel/") {
+			continue
+		}
+		info := pk.TypesInfo
+		for _, fd := range allFuncDecls(pk) {
+			if fd.Body == nil || isTestFile(c.P, fd.Pos()) {
+				continue
+			}
+			occ := map[string]int{}
+			ast.Inspect(fd.Body, func(nd ast.Node) bool {
+				as, ok := nd.(*ast.AssignStmt)
+				if !ok || as.Tok != token.ASSIGN || len(as.Lhs) != len(as.Rhs) {
+					return true
+				}
+				for i, l := range as.Lhs {
+					cl, ok := ast.Unparen(as.Rhs[i]).(*ast.CompositeLit)
+					if !ok || !emptyishLiteral(info, cl) {
+						continue
+					}
+					switch info.Types[cl].Type.Underlying().(type) {
+					case *types.Map, *types.Slice:
+					case *types.Struct:
+						// a whole value replaced by "the empty value" (Value{Headers: {}, Data: {}})
+					default:
+						continue
+					}
+					// target: a field path or a parameter (not a local being initialised)
+					target := ast.Unparen(l)
+					switch x := target.(type) {
+					case *ast.SelectorExpr:
+					case *ast.Ident:
+						v, ok := info.Uses[x].(*types.Var)
+						if !ok || !isParamVar(info, fd.Type, v) {
+							continue
+						}
+					default:
+						continue
+					}
+					n++
+					key := fmt.Sprintf("zero-default/%s.%s/%s", pk.Name, funcName(fd), exprString(target))
+					occ[key]++
+					if occ[key] > 1 {
+						key += fmt.Sprintf("#%d", occ[key])
+					}
+					c.check(underZeroTest(fd.Body, as, target), key, as.Pos(), "assigned only where "+exprString(target)+" was nil / empty",
+						exprString(target)+" is replaced by an empty value without having been found nil / empty: what the client sent there is dropped")
+				}
+				return true
+			})
+		}
+	}
+	c.count("zero_defaults", n)
+	c.floor("zero defaults", n, 10)
+}
+
+// underZeroTest: the innermost if statement around the node tests the target for nil / emptiness
+// and the node is on the side where it is nil / empty.
+func underZeroTest(root ast.Node, node ast.Node, target ast.Expr) bool {
+	want := exprString(target)
+	var zeroTest func(e ast.Expr) (isZero bool, ok bool)
+	zeroTest = func(e ast.Expr) (bool, bool) {
+		e = ast.Unparen(e)
+		switch x := e.(type) {
+		case *ast.UnaryExpr:
+			if x.Op == token.NOT {
+				z, ok := zeroTest(x.X)
+				return !z, ok
+			}
+		case *ast.BinaryExpr:
+			if x.Op == token.LOR || x.Op == token.LAND {
+				// nil-or-empty / non-nil-and-non-empty of the same target
+				z1, ok1 := zeroTest(x.X)
+				z2, ok2 := zeroTest(x.Y)
+				if ok1 && ok2 && z1 == z2 && ((x.Op == token.LOR) == z1) {
+					return z1, true
+				}
+				return false, false
+			}
+			if x.Op != token.EQL && x.Op != token.NEQ && x.Op != token.GTR {
+				return false, false
+			}
+			l, r := ast.Unparen(x.X), ast.Unparen(x.Y)
+			if exprString(l) == "nil" || exprString(l) == "0" {
+				if x.Op == token.GTR {
+					return false, false
+				}
+				l, r = r, l
+			}
+			subject := ""
+			switch {
+			case exprString(r) == "nil":
+				subject = exprString(l)
+			case exprString(r) == "0":
+				if call, ok := l.(*ast.CallExpr); ok && exprString(call.Fun) == "len" && len(call.Args) == 1 {
+					subject = exprString(ast.Unparen(call.Args[0]))
+				} else {
+					subject = exprString(l) // a number compared with its zero value
+				}
+			case exprString(r) == `""`:
+				subject = exprString(l)
+			}
+			if subject != want {
+				return false, false
+			}
+			return x.Op == token.EQL, true
+		}
+		return false, false
+	}
+	chain := enclosing(root, node)
+	for i := len(chain) - 1; i >= 0; i-- {
+		ifs, ok := chain[i].(*ast.IfStmt)
+		if !ok {
+			continue
+		}
+		z, ok := zeroTest(ifs.Cond)
+		if !ok {
+			return false
+		}
+		if containsNode(ifs.Body, node) {
+			return z
+		}
+		return !z
+	}
+	return false
+}
+
+// ruleClientFieldsNotRewritten (C15/C20, R16): what a front end copied from the client's message
+// into a field of the kernel request is what the kernel gets. A later assignment to that field on a
+// path on which the field holds the client's value — typically a default applied "when it is zero"
+// after the branches of the GET-link form and the POST-body form were merged — replaces a value the
+// client legitimately sent (ttl 0, an empty id) by the server's, in this protocol only.
+func ruleClientFieldsNotRewritten(c *Ctx) {
+	n := 0
+	for _, pp := range []string{pkgHttp, pkgGrpc} {
+		pk := c.P.Pkg(pp)
+		if pk == nil {
+			c.und("client-fields/"+pp, 0, "package not loaded")
+			continue
+		}
+		info := pk.TypesInfo
+		clientSourced := func(fd *ast.FuncDecl, e ast.Expr) bool {
+			found := false
+			ast.Inspect(e, func(x ast.Node) bool {
+				se, ok := x.(*ast.SelectorExpr)
+				if !ok {
+					return true
+				}
+				root := ast.Unparen(se.X)
+				for {
+					if s2, ok := root.(*ast.SelectorExpr); ok {
+						root = ast.Unparen(s2.X)
+						continue
+					}
+					break
+				}
+				id, ok := root.(*ast.Ident)
+				if !ok {
+					return true
+				}
+				v, ok := info.Uses[id].(*types.Var)
+				if !ok {
+					return true
+				}
+				t := derefType(v.Type())
+				switch {
+				case namedPkgPath(t) == pkgPb:
+					found = true
+				case namedPkgPath(t) == pp:
+					if _, isStruct := t.Underlying().(*types.Struct); isStruct && !isParamVar(info, fd.Type, v) && (fd.Recv == nil || !isParamVarList(info, fd.Recv, v)) {
+						found = true // a binding struct (header / body / query) declared in the handler
+					}
+				}
+				return true
+			})
+			return found
+		}
+		for _, fd := range allFuncDecls(pk) {
+			if fd.Body == nil || isTestFile(c.P, fd.Pos()) {
+				continue
+			}
+			// request-typed locals
+			isReqVar := func(e ast.Expr) types.Object {
+				id, ok := ast.Unparen(e).(*ast.Ident)
+				if !ok {
+					return nil
+				}
+				o := info.Uses[id]
+				if o == nil {
+					o = info.Defs[id]
+				}
+				if o == nil {
+					return nil
+				}
+				t := derefType(o.Type())
+				if namedPkgPath(t) == pkgTApi && strings.HasSuffix(namedName(t), "Request") {
+					return o
+				}
+				return nil
+			}
+			type fact struct {
+				obj types.Object
+				f   string
+			}
+			gen := func(nd ast.Node) (sets []fact, resets []types.Object) {
+				var lhs, rhs []ast.Expr
+				switch s := nd.(type) {
+				case *ast.AssignStmt:
+					if len(s.Lhs) == len(s.Rhs) {
+						lhs, rhs = s.Lhs, s.Rhs
+					}
+				case *ast.DeclStmt:
+					if gd, ok := s.Decl.(*ast.GenDecl); ok {
+						for _, sp := range gd.Specs {
+							if vs, ok := sp.(*ast.ValueSpec); ok && len(vs.Names) == len(vs.Values) {
+								for i := range vs.Names {
+									lhs = append(lhs, vs.Names[i])
+									rhs = append(rhs, vs.Values[i])
+								}
+							}
+						}
+					}
+				}
+				for i, l := range lhs {
+					o := isReqVar(l)
+					if o == nil {
+						continue
+					}
+					r := ast.Unparen(rhs[i])
+					if u, ok := r.(*ast.UnaryExpr); ok && u.Op == token.AND {
+						r = ast.Unparen(u.X)
+					}
+					cl, ok := r.(*ast.CompositeLit)
+					if !ok {
+						continue
+					}
+					resets = append(resets, o)
+					for _, el := range cl.Elts {
+						if kv, ok := el.(*ast.KeyValueExpr); ok && clientSourced(fd, kv.Value) {
+							sets = append(sets, fact{o, exprString(kv.Key)})
+						}
+					}
+				}
+				return
+			}
+			hasReq := false
+			ast.Inspect(fd.Body, func(x ast.Node) bool {
+				if as, ok := x.(*ast.AssignStmt); ok {
+					for _, l := range as.Lhs {
+						if se, ok := ast.Unparen(l).(*ast.SelectorExpr); ok && isReqVar(se.X) != nil {
+							hasReq = true
+						}
+					}
+				}
+				return true
+			})
+			if !hasReq {
+				continue
+			}
+			g := buildCFG(pk, fd.Body)
+			in := make([]map[fact]bool, len(g.Blocks))
+			in[0] = map[fact]bool{}
+			flow := func(st map[fact]bool, nd ast.Node) {
+				sets, resets := gen(nd)
+				for _, o := range resets {
+					for k := range st {
+						if k.obj == o {
+							delete(st, k)
+						}
+					}
+				}
+				for _, s := range sets {
+					st[s] = true
+				}
+			}
+			for changed, it := true, 0; changed && it < 4*len(g.Blocks)+8; it++ {
+				changed = false
+				for _, b := range g.Blocks {
+					if in[b.Index] == nil {
+						continue
+					}
+					st := map[fact]bool{}
+					for k := range in[b.Index] {
+						st[k] = true
+					}
+					for _, nd := range b.Nodes {
+						flow(st, nd)
+					}
+					for _, sc := range b.Succs {
+						if in[sc.Index] == nil {
+							in[sc.Index] = map[fact]bool{}
+							changed = true
+						}
+						for k := range st {
+							if !in[sc.Index][k] {
+								in[sc.Index][k] = true
+								changed = true
+							}
+						}
+					}
+				}
+			}
+			occ := map[string]int{}
+			for _, b := range g.Blocks {
+				if in[b.Index] == nil {
+					continue
+				}
+				st := map[fact]bool{}
+				for k := range in[b.Index] {
+					st[k] = true
+				}
+				for _, nd := range b.Nodes {
+					if as, ok := nd.(*ast.AssignStmt); ok && len(as.Lhs) == len(as.Rhs) {
+						for i, l := range as.Lhs {
+							se, ok := ast.Unparen(l).(*ast.SelectorExpr)
+							if !ok {
+								continue
+							}
+							o := isReqVar(se.X)
+							if o == nil {
+								continue
+							}
+							n++
+							f := se.Sel.Name
+							key := fmt.Sprintf("client-fields/%s.%s/%s.%s", pk.Name, funcName(fd), namedName(derefType(o.Type())), f)
+							occ[key]++
+							if occ[key] > 1 {
+								key += fmt.Sprintf("#%d", occ[key])
+							}
+							c.check(!st[fact{o, f}] || clientSourced(fd, as.Rhs[i]), key, as.Pos(), "assigned only where the field does not hold a client value", fmt.Sprintf("%s.%s, which on some path already holds what the client sent, is overwritten with %s: a value the client legitimately sent (zero, empty) is replaced by the server's in this protocol only", exprString(se.X), f, exprString(as.Rhs[i])))
+						}
+					}
+					flow(st, nd)
+				}
+			}
+		}
+	}
+	c.count("request_field_assignments", n)
+}
+
+func isParamVarList(info *types.Info, fl *ast.FieldList, v *types.Var) bool {
+	if fl == nil {
+		return false
+	}
+	for _, f := range fl.List {
+		for _, nm := range f.Names {
+			if info.Defs[nm] == v {
+				return true
+			}
+		}
+	}
+	return false
+}
+
+// emptyishLiteral: a composite literal without elements, or a struct literal all of whose fields are
+// themselves empty literals / zero constants.
+func emptyishLiteral(info *types.Info, cl *ast.CompositeLit) bool {
+	if len(cl.Elts) == 0 {
+		return true
+	}
+	if _, isStruct := info.Types[cl].Type.Underlying().(*types.Struct); !isStruct {
+		return false
+	}
+	for _, el := range cl.Elts {
+		kv, ok := el.(*ast.KeyValueExpr)
+		if !ok {
+			return false
+		}
+		switch v := ast.Unparen(kv.Value).(type) {
+		case *ast.CompositeLit:
+			if !emptyishLiteral(info, v) {
+				return false
+			}
+		case *ast.BasicLit:
+			if v.Value != "0" && v.Value != `""` {
+				return false
+			}
+		case *ast.Ident:
+			if v.Name != "nil" && v.Name != "false" {
+				return false
+			}
+		default:
+			return false
+		}
+	}
+	return true
+}
+
+// ruleKeyedSubobjects (C15/C19/C20, R16): an object filed under a constant string key
+// (`"root": {…}`, `"leaf": &pb.MesgPromise{…}`) is built from the members named after that key:
+// every element that reads a field mentions the key in the names it reads (Mesg.Root,
+// RootPromiseHref, RootPromise under "root"). A root / leaf mix-up in a claim response or a
+// dispatched body compiles (the members have the same types) and hands the worker the wrong promise.
+func ruleKeyedSubobjects(c *Ctx) {
+	n := 0
+	for _, pp := range []string{pkgHttp, pkgGrpc, pkgCoroutines, pkgSender} {
+		pk := c.P.Pkg(pp)
+		if pk == nil {
+			c.und("keyed-subobjects/"+pp, 0, "package not loaded")
+			continue
+		}
+		info := pk.TypesInfo
+		for _, fd := range allFuncDecls(pk) {
+			if fd.Body == nil || isTestFile(c.P, fd.Pos()) {
+				continue
+			}
+			env := newLocalEnv(pk, fd, nil)
+			occ := map[string]int{}
+			ast.Inspect(fd.Body, func(nd ast.Node) bool {
+				kv, ok := nd.(*ast.KeyValueExpr)
+				if !ok {
+					// m["leaf"] = T{…}
+					as, isAs := nd.(*ast.AssignStmt)
+					if !isAs || len(as.Lhs) != 1 || len(as.Rhs) != 1 {
+						return true
+					}
+					ix, isIx := ast.Unparen(as.Lhs[0]).(*ast.IndexExpr)
+					if !isIx {
+						return true
+					}
+					kv = &ast.KeyValueExpr{Key: ix.Index, Value: as.Rhs[0]}
+				}
+				kl, ok := ast.Unparen(kv.Key).(*ast.BasicLit)
+				if !ok || kl.Kind != token.STRING {
+					return true
+				}
+				key := strings.ToLower(strings.Trim(kl.Value, "\"`"))
+				v := ast.Unparen(kv.Value)
+				if u, ok := v.(*ast.UnaryExpr); ok && u.Op == token.AND {
+					v = ast.Unparen(u.X)
+				}
+				sub, ok := v.(*ast.CompositeLit)
+				if !ok || len(key) < 3 {
+					return true
+				}
+				for _, el := range sub.Elts {
+					ekv, ok := el.(*ast.KeyValueExpr)
+					if !ok {
+						continue
+					}
+					ev := ast.Unparen(ekv.Value)
+					if u, ok := ev.(*ast.UnaryExpr); ok && u.Op == token.AND {
+						ev = ast.Unparen(u.X)
+					}
+					if _, isLit := ev.(*ast.CompositeLit); isLit {
+						continue
+					}
+					reads := false
+					ast.Inspect(ev, func(x ast.Node) bool {
+						if se, ok := x.(*ast.SelectorExpr); ok {
+							if sel := info.Selections[se]; sel != nil && sel.Kind() == types.FieldVal {
+								reads = true
+							}
+						}
+						return true
+					})
+					if !reads {
+						continue
+					}
+					names := map[string]bool{}
+					namesIn(pk, env, ev, 0, names)
+					hit := false
+					for nm := range names {
+						if strings.Contains(nm, key) {
+							hit = true
+						}
+					}
+					n++
+					k := fmt.Sprintf("keyed-subobject/%s.%s/%s.%s", pk.Name, funcName(fd), key, strings.Trim(exprString(ekv.Key), "\""))
+					occ[k]++
+					if occ[k] > 1 {
+						k += fmt.Sprintf("#%d", occ[k])
+					}
+					c.check(hit, k, ekv.Pos(), "built from the members named after its key", fmt.Sprintf("the object filed under %q takes %s from %s, which is not a member named after %q: the %s entry carries another entry's data", key, exprString(ekv.Key), exprString(ekv.Value), key, key))
+				}
+				return true
+			})
+		}
+	}
+	c.count("keyed_subobject_members", n)
 }
